@@ -1,4 +1,5 @@
 import HttpcoreModel.Pool
+import HttpcoreModel.Generated
 /-!
 # C07 — Waiting requests make progress whenever capacity exists (pool-pass theorems)
 -/
@@ -151,5 +152,15 @@ theorem served_when_possible (cfg : Cfg) (s : State) (r : Req)
   · exact h h4
   · exact h2 h
   · exact h h3
+
+/-- **C07.every_queue_change_triggers_pass** - Tie A (regenerated): after every statement of `connection_pool.py` that changes the
+request queue - a request added, a request removed because it failed / was cancelled / its response was closed, a request given its
+connection back after `ConnectionNotAvailable` - the next thing the pool does, before any suspension point, is an unconditional
+assignment pass.  Together with `pass_complete` (a pass leaves a request waiting only if nothing can serve it): no change of the
+queue leaves a serviceable request waiting. -/
+theorem every_queue_change_triggers_pass : ∀ r ∈ Gen.poolPassFollows, r.2.2 = true := by decide
+
+/-- non-vacuity: the four sites of the request protocol are in the table -/
+theorem queue_change_sites_found : 4 ≤ Gen.poolPassFollows.length := by decide
 
 end Httpcore.C07
